@@ -4,8 +4,8 @@ from vlib import rt, gen
 from vlib.gen import chance, pick
 
 ID = "C10"
-CASES = {"quick": 16000, "thorough": 400000}
-SOFT = 20
+CASES = {"quick": 10000, "thorough": 400000}
+SOFT = 6
 HARD = 120
 # thorough tier: additionally a coverage-guided byte-level campaign (atheris) over six fixed grammars with
 # the same oracle inside the target; 8 processes, fresh empty corpora
